@@ -51,7 +51,7 @@ variant_case.sharded = True
 def _variant_case(draw, tier, names):
     name = draw(st.sampled_from(names))
     e = catalog.get(name)
-    kinds = ["buffersize", "buffersize", "config", "tempdir", "nocache"] + (["presorted", "presorted"] if e.has("presorted") else [])
+    kinds = ["buffersize", "buffersize", "config", "tempdir", "nocache"] + (["presorted"] * 3 if e.has("presorted") else [])
     variant = draw(st.sampled_from(kinds))
     # presorted inputs are sorted by the harness on the raw key cells: rows may be ragged only beyond the key fields
     # (k, j are the first two), so that squaring up (padding with `missing`) cannot change a key after the fact
@@ -64,6 +64,8 @@ def _variant_case(draw, tier, names):
     c["cache"] = draw(st.booleans())
     upstream_ok = not e.cells  # direct-cell entries need their own cell kinds
     c["upstream"] = draw(st.sampled_from(sorted(UPSTREAM))) if upstream_ok and draw(st.booleans()) else "list"
+    # the other inputs get a row container of their own (list rows on one side, tuple rows or a view on the other)
+    c["upstream2"] = draw(st.sampled_from(sorted(UPSTREAM))) if upstream_ok and draw(st.booleans()) else c["upstream"]
     return c
 
 
@@ -89,10 +91,15 @@ def check_variant(case, ctx):
     S0 = codec.snapshot(case["sources"])
     if variant == "presorted":
         S0 = _presort(e, S0)
-    up = UPSTREAM[case["upstream"]]
+    ups = [UPSTREAM[case["upstream"]]] + [UPSTREAM[case.get("upstream2", case["upstream"])]] * 3
+
+    def wrapped(S):
+        return [ups[i](t) for i, t in enumerate(S)]
     ctx.label("entry:" + e.name, "variant:" + variant, "upstream:" + case["upstream"])
+    if e.n >= 2 and case.get("upstream2", case["upstream"]) != case["upstream"]:
+        ctx.label("mixed-row-containers")
     try:
-        base = _run(e, [up(t) for t in codec.snapshot(S0)], passes=1)[0]
+        base = _run(e, wrapped(codec.snapshot(S0)), passes=1)[0]
     except Exception as ex:
         ctx.label("rejected:" + type(ex).__name__)
         return None
@@ -113,7 +120,7 @@ def check_variant(case, ctx):
             cfg.sort_buffersize = bs
             kw = {"cache": case["cache"]}
         try:
-            S = [up(t) for t in codec.snapshot(S0)]
+            S = wrapped(codec.snapshot(S0))
             view = e.build(S, **kw)
             outs = []
             import os
@@ -137,8 +144,8 @@ def check_variant(case, ctx):
         ctx.label("chunk-files-seen" if saw_files else "no-chunk-files")
     for p, got in enumerate(outs):
         if got != base:
-            return Fail("%s/%s/differs" % (e.name, variant), "%s with %r (upstream %s) pass %d gave %r, default call gave %r on %r"
-                        % (e.name, dict(kw, config=bs if variant == "config" else None), case["upstream"], p, got, base, S0))
+            return Fail("%s/%s/differs" % (e.name, variant), "%s with %r (upstream %s/%s) pass %d gave %r, default call gave %r on %r"
+                        % (e.name, dict(kw, config=bs if variant == "config" else None), case["upstream"], case.get("upstream2"), p, got, base, S0))
     return None
 
 
@@ -296,7 +303,7 @@ def check_history(case, ctx):
 
 
 SUBS = [
-    Sub("variants", check_variant, strategy=variant_case, quick=12000, thorough=200000),
+    Sub("variants", check_variant, strategy=variant_case, quick=20000, thorough=200000),
     Sub("histories", check_history, strategy=history_case, quick=6000, thorough=100000),
 ]
 KNOWN = {}
